@@ -305,7 +305,11 @@ func (e *Executor) runDeferred(t *ast.Task, call *Call, i int, deferredExitCode 
 	}
 
 	cmd := t.Cmds[i]
-	vars, _ := e.Compiler.GetVariables(origTask, call)
+	vars, err := e.Compiler.GetVariables(origTask, call)
+	if err != nil {
+		e.Logger.VerboseErrf(logger.Yellow, "task: ignored error in deferred cmd: %s\n", err.Error())
+		return
+	}
 	cache := &templater.Cache{Vars: vars}
 	extra := map[string]any{}
 
